@@ -190,9 +190,14 @@ func runC18(c c18Case, tr *vw.Trace) *vw.Violation {
 		tr.Class("accepted")
 	}
 	c18Classes(c.Cluster, tr)
-	// repetition on the very same snapshot
+	// repetition: on the very same in-memory snapshot first (the computation must not leave anything behind in
+	// its input that changes the next result), then on fresh copies of it
 	for i := 0; i < c.Repeat; i++ {
-		again, err := toConfig(verifcfg.Resources(c.Cluster), validate)
+		res := base
+		if i > 0 {
+			res = verifcfg.Resources(c.Cluster)
+		}
+		again, err := toConfig(res, validate)
 		if (err == nil) != (refErr == nil) {
 			return vw.Violationf("repeat-acceptance-differs", "same snapshot: first %v, repetition %v", refErr, err)
 		}
@@ -273,7 +278,7 @@ func diffConfig(a, b *config.Config) string {
 
 func TestVerifC18ToConfig(t *testing.T) {
 	vw.Run(t, vw.Options{Property: "C18", Engine: "toconfig",
-		Rule: "cluster snapshots (1..6 disjoint pools incl. several pinned to one namespace, up to 4 peers, 4 L2 / 5 BGP advertisements, communities, BFD profiles, nodes, namespaces; about one in three deliberately invalid) x 1..4 random permutations of every listed kind x 1..3 repetitions -> toConfig, compared with reflect.DeepEqual; non-trivial = a non-identity permutation of a kind with >=3 objects",
+		Rule:        "cluster snapshots (1..6 disjoint pools incl. several pinned to one namespace, up to 4 peers, 4 L2 / 5 BGP advertisements, communities, BFD profiles, nodes, namespaces; about one in three deliberately invalid) x 1..4 random permutations of every listed kind x 1..3 repetitions -> toConfig, compared with reflect.DeepEqual; non-trivial = a non-identity permutation of a kind with >=3 objects",
 		Assumptions: []string{"reflect.DeepEqual is the comparison the reconcilers use (config_controller.go, pool_controller.go)"}},
 		genC18, runC18)
 }
@@ -395,7 +400,7 @@ func runC18Rec(c c18RecCase, tr *vw.Trace) *vw.Violation {
 
 func TestVerifC18Reconcilers(t *testing.T) {
 	vw.Run(t, vw.Options{Property: "C18", Engine: "reconcilers",
-		Rule: "the real ConfigReconciler / PoolReconciler over the mini API server: converge on a generated snapshot (handler answering success / reprocess-all / transient error), then re-reconcile 1..5 times with permuted listing orders and unrelated changes (node status heartbeat, unrelated secret); handler invocations and forced re-syncs are counted; non-trivial = a non-identity permutation of >=3 objects or an unrelated change",
+		Rule:        "the real ConfigReconciler / PoolReconciler over the mini API server: converge on a generated snapshot (handler answering success / reprocess-all / transient error), then re-reconcile 1..5 times with permuted listing orders and unrelated changes (node status heartbeat, unrelated secret); handler invocations and forced re-syncs are counted; non-trivial = a non-identity permutation of >=3 objects or an unrelated change",
 		Assumptions: []string{"a node status change and an unrelated secret are not part of the configuration"}},
 		genC18Rec, runC18Rec)
 }
